@@ -239,15 +239,36 @@ def F11_cluster_cadence():
 
 
 def F12_label_rank_mismatch():
-    """Call-site level: from_particles indexes modes by rank among PRESENT labels, the kernel by raw label."""
+    """modes exist only for labels present in training; the kernel must look a particle's mode up by LABEL"""
     from tempest.modes import ModeStatistics
     rng = np.random.RandomState(0)
-    u = rng.rand(60, 2)
+    u = np.vstack([rng.rand(30, 2) * 0.1 + 0.1, rng.rand(30, 2) * 0.1 + 0.8])
     labels = np.array([0] * 30 + [2] * 30)   # label 1 attracted no training point
     np.random.seed(0)
     ms = ModeStatistics.from_particles(u, np.ones(60) / 60, labels)
-    # an active particle predicted as label 2 would index modes[2]
-    return {"fails": ms.K <= int(labels.max()), "detail": f"training labels {{0,2}} of K_fit=3 -> ModeStatistics.K={ms.K}; raw label 2 indexes past the end, raw label 1 would get cluster 2's mode"}
+    if not hasattr(ms, "mode_index"):
+        return {"fails": True, "detail": f"training labels {{0,2}} of K_fit=3 -> ModeStatistics.K={ms.K} and the kernel indexes modes by raw label: label 2 is out of range, label 1 gets cluster 2's mode"}
+    probe_u = np.array([[0.15, 0.15], [0.85, 0.85], [0.84, 0.86]])
+    idx, lab = ms.mode_index(np.array([0, 2, 1]), probe_u)
+    ok = (idx.max() < ms.K and np.linalg.norm(ms.means[idx[1]] - u[30:].mean(0)) < 0.05 and np.linalg.norm(ms.means[idx[0]] - u[:30].mean(0)) < 0.05
+          and list(lab[:2]) == [0, 2] and lab[2] in (0, 2))
+    return {"fails": not ok, "detail": f"labels [0,2,1] with modes for labels {{0,2}} -> mode indices {idx.tolist()}, labels {lab.tolist()}"}
+
+
+def F12b_real_run_index_error():
+    from tempest import Sampler
+
+    def like(x):
+        return float(np.logaddexp(-0.5 * np.sum((x - 2) ** 2) / 0.09, -0.5 * np.sum((x + 2) ** 2) / 0.09 - 10))
+    with _quiet(), warnings.catch_warnings():
+        warnings.simplefilter("ignore")
+        np.random.seed(1)
+        try:
+            Sampler(lambda u: 10 * u - 5, like, 2, n_particles=32, clustering=True, cluster_every=3).run(n_total=256, progress=False)
+            err = None
+        except Exception as e:  # noqa
+            err = f"{type(e).__name__}: {e}"
+    return {"fails": err is not None, "detail": f"seed 1, two-mode target, n_particles=32, cluster_every=3, run(n_total=256) -> {err or 'completes'}"}
 
 
 # ---------------------------------------------------------------- C17 / F14 F15
